@@ -604,7 +604,17 @@ def hist_shard(arg) -> core.Part:
     p = core.Part()
     ref = {c: alone(c) for c in {a, b}}
     if a == 0 and b != 0 and ref[a] == ref[b]:
-        raise core.HarnessError(f"probe template is not sensitive to {cfg_name(b)}")
+        # the probe template has a piece for every option whose documented effect changes the output; an option that
+        # changes nothing when it is the only difference from the base is being ignored
+        k, v = VARIANT5[b - 1]
+        p.violation(f"C13/option-ignored/{k}", {
+            "msg": f"Environment({k}={v!r}) alone renders the probe template exactly like the base configuration: "
+                   f"{ref[b]!r}; the option has no effect",
+            "script": "import jinja2\n"
+                      f"src = {SRC5!r}\n"
+                      f"print(repr(jinja2.Environment().from_string(src).render()))\n"
+                      f"print(repr(jinja2.Environment({k}={v!r}).from_string(src).render()))\n",
+        })
     states = set()
     for hist in sorted(hist_ops(a, b, maxlen), key=len):  # shortest first
         obs, state = run_history(hist)
